@@ -71,6 +71,10 @@ def cases(tier, variants):
         for k in range(0, K):
             for rw in REWRITES:
                 yield dict(b, part="rw", k=k, rw=rw)
+        # stop letter: gtol placed between the projected-gradient norms of the old and of
+        # the new objective at the iterate of the rewrite (old one converged, new one not)
+        for k in (2, 3, 5):
+            yield dict(b, part="rw", k=k, rw="scale5", gstop=1)
         # the same redefinitions made through a mutable object passed in `args`
         for k in (1, 3, 5):
             for rw in ("scale5", "w0.2"):
@@ -309,6 +313,20 @@ def run(case):
             tgt = None if vals[k - 1] <= 0 else 5.0 * tgt
             if tgt is None:
                 return dict(viol=[], outcome="no_target_slot", stats={"skipped": 1})
+    if case.get("gstop"):
+        pgs = []
+        minimize_lbfgsb(x0=p.x0.copy(), fun=fun, jac=jac, ftol=-10.0,
+                        callback=lambda x, s_: pgs.append(
+                            F.pgnorm(np.asarray(s_.x, float), np.asarray(s_.jac, float),
+                                     p.lb, p.ub)) and False, **kw)
+        # iterate k is the one in force at update call k; every earlier norm must exceed
+        # the tolerance so that the run gets there
+        if len(pgs) < k + 1 or pgs[k - 1] <= 0 or any(q <= 2.0 * pgs[k - 1] for q in pgs[:k - 1]):
+            return dict(viol=[], outcome="no_gtol_slot", stats={"skipped": 1})
+        g0n = F.pgnorm(np.clip(p.x0, p.lb, p.ub), jac(np.clip(p.x0, p.lb, p.ub)), p.lb, p.ub)
+        if g0n <= 2.0 * pgs[k - 1]:
+            return dict(viol=[], outcome="no_gtol_slot", stats={"skipped": 1})
+        kw = dict(kw, gtol=2.0 * pgs[k - 1])
     try:
         res = minimize_lbfgsb(x0=p.x0.copy(), fun=fun_run, jac=jac_logged, ftol=-10.0,
                               ftarget=tgt, update_fun_def=upd,
@@ -334,6 +352,15 @@ def run(case):
                           message=str(res.message)))
         return dict(viol=viol, outcome=f"stop|{res.message}",
                     nontrivial=core.case_hash(case) if "TARGET" in str(res.message) else None)
+    if case.get("gstop") and "X" in rec:
+        # the rewritten objective has a projected gradient 5 x the old one, i.e. above the
+        # tolerance: the run must go on exactly as a restart on the new objective does
+        pg_new = F.pgnorm(np.asarray(res.x, float), np.asarray(jac(res.x), float), p.lb, p.ub)
+        if "PROJECTED_GRADIENT" in str(res.message) and pg_new > kw["gtol"] * (1 + 1e-9):
+            viol.append(V("run_stops_on_the_old_objective_gradient_after_the_rewrite",
+                          message=str(res.message), nit=int(res.nit), pg_new_objective=pg_new,
+                          gtol=kw["gtol"]))
+            return dict(viol=viol, outcome="gstop|stopped")
     if "X" not in rec or len(states) < max(k, 1):
         return dict(viol=[], outcome="rewrite_not_reached", stats={"skipped": 1})
     # points/gradients that may legitimately appear in pairs from now on: the stored ones
